@@ -618,7 +618,8 @@ theorem gemmxParams_mac_inv (v : Variant) (n : Nat) (op : GemmxOp) (P : GParams)
       (op.i8out = true → ∃ sh, (chunks4 (effRescale n op).shifts).mapM packShiftChunk = .ok sh ∧
         P.shifts = sh.take (ceil4 n) ∧ P.mults = ((effRescale n op).mults.map Val.c).take n ∧
         P.tlb = .c P.m ∧ P.byp = .c 0 ∧ P.csr1 = .c (effRescale n op).dr ∧
-        P.csr0 = csr0Val (effRescale n op).minI (effRescale n op).maxI (effRescale n op).outZp (effRescale n op).inZp) := by
+        P.csr0 = csr0Val (effRescale n op).minI (effRescale n op).maxI (effRescale n op).outZp (effRescale n op).inZp ∧
+        P.attrs = launchAttrs n op sh.length (effRescale n op).mults.length P.m) := by
   unfold gemmxParams at h
   simp only [hk] at h
   split at h
@@ -637,7 +638,7 @@ theorem gemmxParams_mac_inv (v : Variant) (n : Nat) (op : GemmxOp) (P : GParams)
           · simp at h
           · next sh hsh =>
             injection h with h; subst h
-            exact ⟨rfl, hm, rfl, rfl, fun _ => ⟨sh, hsh, rfl, rfl, rfl, rfl, rfl, rfl⟩⟩
+            exact ⟨rfl, hm, rfl, rfl, fun _ => ⟨sh, hsh, rfl, rfl, rfl, rfl, rfl, rfl, rfl⟩⟩
         · next hi =>
           injection h with h; subst h
           exact ⟨rfl, hm, rfl, rfl, fun hh => absurd hh hi⟩
